@@ -1392,23 +1392,23 @@ def _minimize(case):
 
 SUBS = [
     Sub("reinforce", exec_reinforce, strategy=lambda tier: reinforce_cases(tier),
-        budget={"quick": 320, "thorough": 4000}, shards=16, shrink=False, minimize=_minimize, weight=3.0),
+        budget={"quick": 960, "thorough": 4000}, shards=16, shrink=False, minimize=_minimize, weight=3.0),
     Sub("pomo", exec_pomo, strategy=lambda tier: pomo_cases(tier),
-        budget={"quick": 96, "thorough": 1200}, shards=8, shrink=False, minimize=_minimize),
+        budget={"quick": 288, "thorough": 1200}, shards=8, shrink=False, minimize=_minimize),
     Sub("symnco", exec_symnco, strategy=lambda tier: symnco_cases(tier),
-        budget={"quick": 96, "thorough": 1200}, shards=8, shrink=False, minimize=_minimize),
+        budget={"quick": 288, "thorough": 1200}, shards=8, shrink=False, minimize=_minimize),
     Sub("a2c", exec_a2c, strategy=lambda tier: a2c_cases(tier),
-        budget={"quick": 48, "thorough": 600}, shards=4, shrink=False, minimize=_minimize),
+        budget={"quick": 144, "thorough": 600}, shards=4, shrink=False, minimize=_minimize),
     Sub("ppo", exec_ppo, strategy=lambda tier: ppo_cases(tier),
-        budget={"quick": 96, "thorough": 1200}, shards=8, shrink=False, minimize=_minimize, weight=2.0),
+        budget={"quick": 288, "thorough": 1200}, shards=8, shrink=False, minimize=_minimize, weight=2.0),
     Sub("rollout_eval", exec_rollout_eval, strategy=lambda tier: rollout_eval_cases(tier),
-        budget={"quick": 48, "thorough": 800}, shards=8, shrink=False, minimize=_minimize),
+        budget={"quick": 144, "thorough": 800}, shards=8, shrink=False, minimize=_minimize),
     # zoo models with their own loss / rollout layout (vf/c16_zoo_loss.py)
     Sub("zoo_loss", _zoo.exec_zoo, strategy=lambda tier: _zoo.zoo_cases(tier),
-        budget={"quick": 96, "thorough": 1200}, shards=8, shrink=False, minimize=_zoo.minimize_zoo, weight=2.0),
+        budget={"quick": 288, "thorough": 1200}, shards=8, shrink=False, minimize=_zoo.minimize_zoo, weight=2.0),
     # the two further bundled PPO implementations (vf/c16_ppo_variants.py)
     Sub("stepwise_ppo", _ppov.exec_stepwise, strategy=lambda tier: _ppov.stepwise_cases(tier),
-        budget={"quick": 96, "thorough": 1200}, shards=8, shrink=False, minimize=_ppov.minimize_stepwise, weight=2.0),
+        budget={"quick": 288, "thorough": 1200}, shards=8, shrink=False, minimize=_ppov.minimize_stepwise, weight=2.0),
     Sub("nstep_ppo", _ppov.exec_nstep, strategy=lambda tier: _ppov.nstep_cases(tier),
-        budget={"quick": 96, "thorough": 1200}, shards=8, shrink=False, minimize=_ppov.minimize_nstep, weight=2.0),
+        budget={"quick": 288, "thorough": 1200}, shards=8, shrink=False, minimize=_ppov.minimize_nstep, weight=2.0),
 ]
